@@ -247,6 +247,37 @@ def text_transformers(fn):
     return sorted(out)
 
 
+def media_conditions(fn, scopes):
+    """conditions on a MEDIA TYPE that decide whether the parse site is reached: `if` statements, in the function holding
+    the site or in a function calling it, whose test reads a media type (`[...]['media-type']`, a name containing
+    mimetype / mediatype / media_type) and whose body leaves the dispatch (break / continue / return / raise) or contains
+    the call of the site's function.  The property does not care what kind of object a folder holds, so a dispatch that
+    does is a condition under which a member may escape the refusing parser."""
+    out = []
+    for g in scopes:
+        for n in g.nodes:
+            if not isinstance(n, ast.If):
+                continue
+            mentions = False
+            for t in ast.walk(n.test):
+                if isinstance(t, ast.Constant) and isinstance(t.value, str) and t.value.lower().replace('_', '-') in ('media-type', 'mediatype'):
+                    mentions = True
+                if isinstance(t, ast.Name) and any(w in t.id.lower() for w in ('mimetype', 'mediatype', 'media_type')):
+                    mentions = True
+                if isinstance(t, ast.Attribute) and any(w in t.attr.lower() for w in ('mimetype', 'mediatype', 'media_type')):
+                    mentions = True
+            if not mentions:
+                continue
+            body = list(n.body) + list(n.orelse)
+            leaves = any(isinstance(b, (ast.Break, ast.Continue, ast.Return, ast.Raise)) for b in body)
+            calls = any(isinstance(c, ast.Call) and ((isinstance(c.func, ast.Name) and c.func.id == fn.name) or
+                                                     (isinstance(c.func, ast.Attribute) and c.func.attr == fn.name))
+                        for b in body for c in ast.walk(b))
+            if leaves or calls:
+                out.append('%s:%d' % (g.qual, n.lineno))
+    return sorted(set(out))
+
+
 def inventory(repo):
     files = sorted('odf/' + f for f in os.listdir(os.path.join(repo, 'odf')) if f.endswith('.py'))
     scripts = shipped_scripts(repo)
@@ -395,6 +426,7 @@ def inventory(repo):
         s['obj_param'] = any(pfx is not None and pfx in fn.params for _, pfx in lits)
         s['doctype_guard'] = doctype_guard(fn, s['node'])
         s['prep_names'] = text_transformers(fn)
+        s['media_conds'] = media_conditions(fn, [fn] + callers_of(fn))
         s['via'] = via
 
     # ---- reach
@@ -447,7 +479,7 @@ def _at_module_level(tree, node):
 
 def summary(inv):
     return {'files_scanned': len(inv['files']), 'scripts': inv['scripts'],
-            'sites': [{k: s[k] for k in ('id', 'file', 'line', 'func', 'callee_path', 'origin_name', 'member_names', 'obj_param', 'doctype_guard', 'prep_names',
+            'sites': [{k: s[k] for k in ('id', 'file', 'line', 'func', 'callee_path', 'origin_name', 'member_names', 'obj_param', 'doctype_guard', 'prep_names', 'media_conds',
                                          'reached_by')} for s in inv['sites']],
             'reach': inv['reach'], 'missing_entry_points': inv['missing_entry_points'], 'unparsable': inv['skipped']}
 
@@ -473,7 +505,8 @@ def to_lean(inv):
             s['id'], s['file'], s['line'], s['func'], s['callee_path'], s['origin_name'], s['member_names'] or '?',
             ' prefixed by a parameter' if s['obj_param'] else '',
             (' + doctype system/public id guard' if s['doctype_guard'] else '') +
-            (' ; text pre-processing: ' + ', '.join(s['prep_names']) if s['prep_names'] else '') + ('' if s['library'] else '  [shipped script]')))
+            (' ; text pre-processing: ' + ', '.join(s['prep_names']) if s['prep_names'] else '') +
+            (' ; MEDIA-TYPE DEPENDENT DISPATCH at ' + ', '.join(s['media_conds']) if s['media_conds'] else '') + ('' if s['library'] else '  [shipped script]')))
     L.append('-/')
     L.append('import OdfModel.ParseSite')
     L.append('namespace OdfModel.Generated.ParseSites')
@@ -481,10 +514,10 @@ def to_lean(inv):
     L.append('')
 
     def site(s):
-        return '⟨%d, %d, %d, %d, %d, %d, [%s], %s, %s, %d⟩' % (
+        return '⟨%d, %d, %d, %d, %d, %d, [%s], %s, %s, %d, %d⟩' % (
             s['id'], fcode[s['file']], ucode[(s['file'], s['func'])], ccode[s['callee_path']], s['origin'], s['api'],
             ', '.join(str(m) for m in s['members']), 'true' if s['obj_param'] else 'false',
-            'true' if s['doctype_guard'] else 'false', len(s['prep_names']))
+            'true' if s['doctype_guard'] else 'false', len(s['prep_names']), len(s['media_conds']))
     lib = [s for s in inv['sites'] if s['library']]
     scr = [s for s in inv['sites'] if not s['library']]
     L.append('/-- parser constructions in the library `odf/*.py` -/')
